@@ -26,9 +26,11 @@ impl RangeInto for MyRange {
                 line: self.start().zero_idx_line().try_into().unwrap_or(0),
                 character: self.start().zero_idx_column().try_into().unwrap_or(0),
             },
+            // our end is the last character of the range, the protocol's is
+            // the position after it
             end: Position {
                 line: self.end().zero_idx_line().try_into().unwrap_or(0),
-                character: self.end().zero_idx_column().try_into().unwrap_or(0),
+                character: (self.end().zero_idx_column() + 1).try_into().unwrap_or(0),
             },
         }
     }
